@@ -181,8 +181,11 @@ static void scn_workers(void) {
   for (int i = 0; i < nthreads; i++) { th[i] = new_raw(Thread, fobj); call(th[i]); }
   for (int i = 0; i < nthreads; i++) {
     join(th[i]);
-    if (!done_flag[i + 1]) sch_fail("join-returned-before-thread-finished", "join of thread %d returned before its function finished", i + 1);
+    /* under the scheduler thread ids are creation order; free-running, ids are handed out on first use, so only the
+    ** state after the last join can be judged there */
+    if (!free_mode && !done_flag[i + 1]) sch_fail("join-returned-before-thread-finished", "join of thread %d returned before its function finished", i + 1);
   }
+  if (free_mode) for (int i = 1; i <= nthreads; i++) if (!done_flag[i]) sch_fail("join-returned-before-thread-finished", "all threads joined but worker %d has not finished its function", i);
   uint64_t dg = 0;
   for (int i = 0; i < nthreads; i++) {
     if (result[i + 1] != the_solo[i + 1]) sch_fail("thread-result-differs-from-solo-run", "%s thread %d computed %" PRId64 ", alone it computes %" PRId64, the_body_name, i + 1, result[i + 1], the_solo[i + 1]);
